@@ -42,7 +42,11 @@ let eval (toks : ostring list) : ostring =
   | ["at_jdn"; c; j] -> let c = ccal_of c in date_s (date_of c (i32 j))
   | ["at_ymd"; c; y; m; d] -> let c = ccal_of c in res_date (at_ymd_spec c (i32 y) (month_of_int m) (u32 d))
   | ["at_ordinal_date"; c; y; o] -> let c = ccal_of c in res_date (at_ordinal_date_spec c (i32 y) (u32 o))
-  | ["year_kind"; c; y] -> let c = ccal_of c in ykind_s (ykind_gen (year_kind_of c (i32 y)))
+  | ["year_kind"; c; y] ->
+    let c = ccal_of c in
+    let k = ykind_gen (year_kind_of c (i32 y)) in
+    let (((a, b), cc), d) = ykind_flags k in
+    Printf.sprintf "%s;is_leap=%s;is_common=%s;is_reform=%s;is_skipped=%s" (ykind_s k) (bool_s a) (bool_s b) (bool_s cc) (bool_s d)
   | ["year_length"; c; y] -> let c = ccal_of c in zs (year_count c (i32 y))
   | ["month_shape"; c; y; m] -> let c = ccal_of c in spec_shape_s c (i32 y) (month_of_int m)
   | ["shape_q"; c; y; m; d] ->
